@@ -146,3 +146,25 @@ def block_cosim(src, std="f2008", ignore_comments=True, process_directives=False
                     "what": "block model and real parser differ at %s: %s" % (dis.get("step"), str(dis.get("what"))[:300]),
                     "replay": {"case": case, "source": src, "std": std, "ignore_comments": ignore_comments}})
     return out, info
+
+
+def token_cosim(lines, case=None, limit=40):
+    """tokeniser model M-A (splitquote / splitparen / string_replace_map / re-application)
+    against the real functions on the given statement lines -> findings"""
+    from fv import cosim_token as CT
+    from fv.model import get_model
+    m = get_model()
+    out = []
+    for i, l in enumerate(lines[:limit]):
+        for lower in (False, True):
+            c = {"kind": "line", "line": l, "stop": None, "lower": lower}
+            try:
+                d = CT.check_case(m, c)
+            except Exception as e:  # noqa: BLE001
+                d = {"function": "harness", "error": "%s: %s" % (type(e).__name__, str(e)[:200])}
+            if d is not None:
+                out.append({"signature": "correspondence:Fp.Splitline", "no_input": True,
+                            "what": "tokeniser model and real splitline differ (%s) on %r" % (d.get("function"), l[:200]),
+                            "replay": {"case": case, "line": l, "lower": lower}})
+                return out
+    return out
